@@ -223,6 +223,31 @@ pub fn free(ctx: &Ctx) -> Stats {
     st
 }
 
+/// deterministic lag for the mapped writer: the worker that takes one chosen record is held for 300 ms at the `took`
+/// hook while the others write the thousands of remaining rows (row offsets, not arrival order, must place every row)
+pub fn lag(ctx: &Ctx) -> Stats {
+    let mut st = Stats::new();
+    let n = ctx.n(4, 24);
+    let mut orders = HashSet::new();
+    for i in 0..n {
+        if ctx.expired() {
+            st.truncated = true;
+            break;
+        }
+        let mut rng = Rng::keyed(ctx.seed, "c05.lag", i);
+        let nrec = rng.usize(5000, 9000);
+        let k = rng.usize(1, 3);
+        let recs: Vec<Rec> = (0..nrec).map(|j| Rec { id: format!("g{}", j), desc: None, seq: gen_seq(&mut rng, SeqClass::Uniform, 5 + j % 37, true) }).collect();
+        let cfg = OligoCfg { k, threads: [2usize, 3, 8, 4][((i / 2) % 4) as usize], memory: 4 << 30, header: i % 2 == 0, delim: " ".into(), norm: true, writer: Writer::Mmap };
+        let sc = Scratch::new(ctx, "c05g");
+        let inp = write_input(&sc, "in", &recs, &Container::FastaSingle, None, &mut rng);
+        let victim = [0u64, rng.range(2, 200), 1, (nrec / 3) as u64][(i % 4) as usize];
+        st.class(&format!("threads={} held record {}", cfg.threads, if victim < 2 { victim.to_string() } else { "later".into() }));
+        sched_case(ctx, &mut st, &sc, &recs, &cfg, &inp, Mode::Straggle { record: victim, hold_ms: 300 }, vec![], "lag", &mut orders);
+    }
+    st
+}
+
 fn run_plain(sc: &Scratch, inp: &str, name: &str, cfg: &OligoCfg) -> Result<Vec<u8>, (String, String)> {
     let outp = sc.path(name);
     let run = run_oligo(inp, &outp, cfg, None);
